@@ -5,5 +5,4 @@ set -e
 WT=/tmp/wt-$1
 [ -e "$WT" ] && { echo "$WT exists" >&2; exit 1; }
 cp -a /repo "$WT"
-git -C "$WT" checkout -q -- . 2>/dev/null || true
 echo "$WT"
